@@ -187,6 +187,8 @@ func (s *bindSys) ipOf(name string) string {
 		return "0.0.0.0"
 	case "lo":
 		return "127.0.0.1"
+	case "lo2":
+		return "127.0.0.2" // in the loopback range but not an address of the host (its loopback interface holds 127.0.0.1)
 	}
 	return "10.9.9.9" // foreign
 }
@@ -460,6 +462,7 @@ func runC13Body(tier string, shard, shards int, rep *SeqReport, lastOp, curFam *
 			}
 		}
 	}
+	balpha = append(balpha, "listenudp lo2 5000", "listenudp lo2 0 0")
 	balpha = append(balpha, "dial own1", "dial lo", "close 0", "close 1", "close 2", "reclose",
 		"probe own1 5000", "probe own2 5000", "probe lo 5000", "probe own1 5001", "probe own1 0")
 	bdepth, cap := 4, int64(150000)
